@@ -282,3 +282,51 @@ impl Tag {
 pub const MAGIC: [u8; 3] = [1, 2, 3];
 pub const OFFSET: usize = 4 + 8;
 pub const NAME: &str = "fixture_table";
+
+// ---- index-set coverage of a child loop (full-range rule)
+pub struct Br {
+    pub n: usize,
+}
+impl Br {
+    #[inline(never)]
+    pub fn count_children(&self) -> usize {
+        self.n
+    }
+    #[inline(never)]
+    pub fn child_page(&self, i: usize) -> Option<u64> {
+        Some(i as u64)
+    }
+}
+pub fn walk_rev_good(b: &Br, out: &mut Vec<u64>) {
+    for child in (0..b.count_children()).rev() {
+        out.push(b.child_page(child).unwrap());
+    }
+}
+pub fn walk_arith_good(b: &Br, out: &mut Vec<u64>) {
+    let n = b.count_children();
+    for child in 0..n {
+        out.push(b.child_page(n - 1 - child).unwrap());
+    }
+}
+pub fn walk_inclusive_good(b: &Br, out: &mut Vec<u64>) {
+    let n = b.count_children();
+    for child in 1..=n {
+        out.push(b.child_page(n - child).unwrap());
+    }
+}
+pub fn walk_skips_zero_bad(b: &Br, out: &mut Vec<u64>) {
+    let n = b.count_children();
+    for child in 1..n {
+        out.push(b.child_page(n - child).unwrap());
+    }
+}
+pub fn walk_skip_adaptor_bad(b: &Br, out: &mut Vec<u64>) {
+    for child in (0..b.count_children()).skip(1) {
+        out.push(b.child_page(child).unwrap());
+    }
+}
+pub fn walk_short_bad(b: &Br, out: &mut Vec<u64>) {
+    for child in 0..b.count_children() - 1 {
+        out.push(b.child_page(child).unwrap());
+    }
+}
